@@ -196,6 +196,7 @@ def run(ctx, out, tier):
     else:
         out.viol("C04.exit", "C04.exit|sites", "-", "process::exit / abort is called from %s; expected only the report function" % [b.id for b, t in ex])
         out.inst("C04.exit", 0, 1)
+    shared.sh_units(ctx, out)
     m = meta(len(S), n_auto, n_tab, by_class)
     if tier == "thorough":
         m["release_profile"] = release_profile_census(ctx, S)
